@@ -40,7 +40,7 @@ def run_config(prog, cfg):
                   {(x["function"], x["key"]): x["reason"] for x in t4.get("r04_3_exceptions", [])})
     for i in r3.insts:
         i.config = cfg
-    return [r1, r04_2(prog, cfg), r3, r04_4(prog, cfg), r04_5(prog, cfg), r04_6(prog, cfg), r04_7(prog, cfg)]
+    return [r1, r04_2(prog, cfg), r3, r04_4(prog, cfg), r04_5(prog, cfg), r04_6(prog, cfg), r04_7(prog, cfg), r04_9(prog, cfg)]
 
 
 def run(ctx):
@@ -614,4 +614,103 @@ def r04_4(prog, cfg):
     r.note("%d assertions over values not derived from the input (not decided)" % n_plain)
     for i in r.insts:
         i.config = cfg
+    return r
+
+
+# ------------------------------------------------------------------------------------------ R04.9
+def r04_9(prog, cfg):
+    """Every direct read of the input is preceded by a look at how much input there is.  In the BER and OER decoders
+    (functions with a `const <byte or void> *buf, size_t size` parameter pair reachable from those slots), a dereference
+    or subscript of the buffer pointer (or of a local pointer derived from it) is dominated by a branch whose condition
+    mentions the size parameter (or a local derived from it), or by a branch/switch on the result of a header fetcher
+    that was given the buffer (its positive answer vouches for the octets it looked at).  This is a necessary
+    condition only: which comparison it is, and whether it is the right one, is numeric."""
+    from . import common
+    from ..model import walk
+    t4 = load_tables("c04")
+    exc = {(x["function"], x["key"]): x["reason"] for x in t4.get("r04_9_exceptions", [])}
+    fetchers = set(t4["fetchers"].keys())
+    r = Rule("R04.9", "a direct read through the input pointer is dominated by a test of the remaining size or of a header fetcher's result", floor=30 if cfg == "default" else 0)
+    cg = prog.callgraph()
+    scope = cg.reachable(common.slot_functions(prog, ["ber_decoder", "oer_decoder"]))
+    for k in sorted(scope):
+        f = prog.funcs[k]
+        pairs = []
+        for i, p in enumerate(f.params[:-1]):
+            t = p["type"].replace("const ", "").strip()
+            if "const" in p["type"] and t in ("void *", "uint8_t *", "char *") and f.params[i + 1]["type"].strip() in ("size_t", "ssize_t"):
+                pairs.append((p["id"], f.params[i + 1]["id"]))
+        for bp, sz in pairs:
+            al, szs = {bp}, {sz}
+            ch = True
+            while ch:
+                ch = False
+                for b, i, e in f.events():
+                    tgt = tree = None
+                    if e["k"] == "decl" and "init" in e:
+                        tgt, tree = e["id"], e["init"]["tree"]
+                    elif e["k"] == "assign" and e.get("lhs") == e.get("base") and not e.get("deref") and "rhs" in e:
+                        tgt, tree = e.get("base_id"), e["rhs"]["tree"]
+                    if not tgt or tree is None:
+                        continue
+                    isptr = "*" in (e.get("type") or e.get("base_type") or "")
+                    if isptr and tgt not in al and any(n[0] == "var" and n[1] in al for n in walk(tree)):
+                        al.add(tgt)
+                        ch = True
+                    if not isptr and tgt not in szs and not any(n[0] in ("call", "icall") for n in walk(tree)) \
+                            and any(n[0] == "var" and n[1] in szs for n in walk(tree)):
+                        szs.add(tgt)
+                        ch = True
+            # results of fetchers that were handed the buffer
+            fres = set()
+            for b, i, e in f.calls():
+                if e.get("callee") in fetchers and any(n[0] == "var" and n[1] in al for a in e.get("args", []) for n in walk(a.get("tree"))):
+                    ui = e.get("useinfo", {})
+                    v = ui.get("var") or (strip_casts(ui["lhs_tree"])[1] if ui.get("lhs_tree") is not None and is_var(ui["lhs_tree"]) else None)
+                    if v:
+                        fres.add(v)
+            dom = f.dominators()
+            n = 0
+            for b, i, e in sorted(f.events(), key=lambda z: (z[2].get("line") or 0, z[0].id, z[1])):
+                if not (e["k"] in ("deref", "subscript") and e.get("base_id") in al):
+                    continue
+                n += 1
+                key = "read#%d:%s" % (n, (e.get("lhs") or tree_text(e.get("tree")) or "")[:40])
+                why = None
+                for d in dom.get(b.id, ()):
+                    tb = f.blocks[d]
+                    if not tb.term or "cond" not in tb.term:
+                        continue
+                    if d == b.id:
+                        # the read may be part of this block's own condition: only earlier blocks vouch for it
+                        continue
+                    vs = {x[1] for x in walk(tb.term["cond"].get("full_tree") or tb.term["cond"]["tree"]) if x[0] == "var"}
+                    if vs & szs:
+                        # the size test must still speak about the cursor being read: no later re-assignment of the cursor without
+                        # a further size test is checked here (numeric); a test anywhere above counts
+                        why = "size test at line %s" % tb.term.get("line")
+                    elif vs & fres:
+                        # a fetcher vouches for the octets it looked at, i.e. for the cursor as it was: the cursor must not have
+                        # been advanced between that test and the read
+                        moved = False
+                        # blocks on a way from the test to the read that does not come back through the test
+                        reach = (f.reachable_from([s_ for s_ in tb.succ if s_ is not None], stop=lambda x, d=d: x == d)
+                                 & f.reachable_from([b.id], stop=lambda x, d=d: x == d, forward=False)) - {d}
+                        for bid in reach:
+                            for j, y in enumerate(f.blocks[bid].ev):
+                                if bid == b.id and j >= i:
+                                    break
+                                if y["k"] == "assign" and y.get("base_id") == e.get("base_id") and y.get("lhs") == y.get("base") and not y.get("deref"):
+                                    moved = True
+                        if not moved:
+                            why = why or "test of a fetcher result at line %s (cursor not advanced since)" % tb.term.get("line")
+                if why:
+                    r.ok(f, key, why, e["line"])
+                elif (f.name, key) in exc:
+                    r.exc(f, key, exc[(f.name, key)], e["line"])
+                else:
+                    r.bad(f, key, "the input is read here and no dominating branch looks at the remaining size (or at a header fetcher's "
+                                  "result): with an empty or exhausted buffer this reads past the data that was presented", e["line"])
+    for i_ in r.insts:
+        i_.config = cfg
     return r
